@@ -202,3 +202,31 @@ func H_c03_inbound_sizes() {
 	_ = err
 	symReach("end")
 }
+
+// a peer that ignores the limit of five proposals per block: six to eight FC
+// lines with a correct F> checksum, then whatever the answer calls for is not
+// sent (the input ends).  Exchange's receiving half returns; no panic.
+func H_c03_many_proposals() {
+	symBudget(300000000)
+	n := symInt(6, symParam("N", 7))
+	var lines []string
+	for i := 0; i < n; i++ {
+		m := mkMsg(c01MIDs[i], "s", "b\r\n")
+		raw, _ := m.Bytes()
+		p := NewProposal(m.MID(), m.Subject(), Wl2kProposal, raw)
+		lines = append(lines, refProposalLine('C', m.MID(), len(raw), len(p.compressedData)))
+	}
+	in := refProposalBlock(lines)
+	conn := newVConn(in)
+	h := &recHandler{failAt: -1}
+	pat := symInt(0, 2)
+	k := 0
+	h.policy = func(p Proposal) ProposalAnswer {
+		k++
+		return [...][3]ProposalAnswer{{Accept, Accept, Accept}, {Reject, Reject, Reject}, {Accept, Reject, Defer}}[pat][k%3]
+	}
+	s := newVSession(h, conn, false)
+	_, err := s.handleInbound(conn)
+	_ = err
+	symReach("end")
+}
